@@ -52,7 +52,7 @@ def case_strategy(draw, variant):
     vc = draw(st.sampled_from(["np", "series", "series", "pl"]))
     if vc == "pl" and vkind in "mM":
         vc = "series"
-    return {"n": n, "keys": keys, "vals": [vspec], "mask": mask, "op": op, "layout": layout,
+    return {"n": n, "warm": draw(S.warm()), "keys": keys, "vals": [vspec], "mask": mask, "op": op, "layout": layout,
             "kw": {"ddof": draw(st.sampled_from([0, 1]))} if op in ("var", "std") else {},
             "sort": draw(st.sampled_from([True, True, False])),
             "threshold": draw(st.integers(1, n)), "key_chunks": draw(st.integers(1, 5)),
@@ -105,7 +105,7 @@ def check(case, ctx):
         elif case["layout"] == "chunkwise_after_median":
             gb.median(np.zeros(n))  # unifies the chunk-local codes but keeps them chunked
         T = call(gb, case, values, mask, True)
-        R = call(gbops.build(case, keys), case, values, mask, False)
+        R = call(gbops.build(case, keys, warm=False), case, values, mask, False)
     labels = gbops.labels_of(case)
     sel = model.select(n, case["mask"])
     live_sel = {labels[p] for p in sel if labels[p] is not None}
@@ -163,7 +163,7 @@ def frame_strategy(draw, variant):
     vals = [dict(draw(S.value_column(n, dtypes=dts, regime="exact")), name=f"c{j}") for j in range(ncols)]
     op = draw(st.sampled_from([o for o in OPS_T if o != "size"]))
     mask = draw(S.mask_spec(n, kinds=("none", "bool") if op in ("median", "apply_max") else ("none", "bool", "bool", "slice"), steps=layout == "contiguous"))
-    return {"n": n, "keys": keys, "vals": vals, "mask": mask, "op": op, "layout": layout, "how": how,
+    return {"n": n, "warm": draw(S.warm()), "keys": keys, "vals": vals, "mask": mask, "op": op, "layout": layout, "how": how,
             "kw": {"ddof": draw(st.sampled_from([0, 1]))} if op in ("var", "std") else {},
             "sort": draw(st.sampled_from([True, True, False])),
             "threshold": draw(st.integers(1, n)), "key_chunks": draw(st.integers(1, 5)),
@@ -203,7 +203,7 @@ def check_frame(case, ctx):
         elif case["layout"] == "chunkwise_after_median":
             gb.median(np.zeros(n))
         F = call(gb, case, values, mask, True)
-        singles = [call(gbops.build(case, keys), case, a, mask, False) for a in arrays]
+        singles = [call(gbops.build(case, keys, warm=False), case, a, mask, False) for a in arrays]
     labels = gbops.labels_of(case)
     ctx.seen("frame", case, len(arrays) >= 2 and len({l for l in labels if l is not None}) >= 2,
              [f"op:{op}", f"how:{case['how']}", f"cols:{len(arrays)}", f"layout:{case['layout']}",
